@@ -30,6 +30,8 @@ type Case struct {
 	// the same source chain and scripts) until a violation shows. Generated cases have 1; replay
 	// files of violations that depend on goroutine scheduling inside the node use more.
 	Repeat int `json:"repeat,omitempty"`
+	// BudgetMs overrides the time a syncing node is given (replay files).
+	BudgetMs int `json:"budget_ms,omitempty"`
 }
 
 // ---- known findings: signatures and the tamperings that trigger them -------------------------
@@ -376,6 +378,9 @@ func syncOnce(c Case, src *srcChain, srcDir, syncDir string, last bool, x *h.Ctx
 	budget := 14000
 	if c.silentForever() {
 		budget = 32000
+	}
+	if c.BudgetMs > 0 {
+		budget = c.BudgetMs
 	}
 	port := freePort()
 	sy, err := startChild("C13_SYNC="+syncDir, "C13_PORT="+strconv.Itoa(port), "C13_GENESIS="+filepath.Join(srcDir, "genesis.json"),
